@@ -205,7 +205,7 @@ void run_case(ByteSource& s, CaseInfo& ci) {
       break;
     }
     case 5: {  // Transpose / Real / Imag: pure copies and sign changes, so the whole exponent range of double is in the domain
-      std::vector<double> c = gen_components(s, d, &pat, s.tail_choose(3) == 1 ? 1022 : 500);
+      std::vector<double> c = gen_components(s, d, &pat, s.tail_choose(3) == 1 ? 1023 : 500);
       ci.label("transpose-real-imag;pat-" + pat); ci.nontrivial = two_kinds(c, d) && (nonzero_kinds(c, d) & 4);
       ci.sample = fmt("Transpose/Real/Imag d=%d comps=%s", d, vec_str(c).c_str());
       SU_vector v = make_vec(c, d);
